@@ -272,8 +272,14 @@ func ringSimilar(a, b []Point, e float64) bool {
 		// the vertex the other ring has in its place. a[i] goes with
 		// b[(s+i)%n], so the closing vertex of a (a repeat of a[0]) goes with
 		// b[s] and the closing vertex of b (a repeat of b[0]) with a[(n-s)%n].
+		// (When both rings start at the same vertex, s == 0, the two closing
+		// vertices are in each other's place.)
 		if match && n < len(a) {
-			match = pointSimilar(a[n], ob[s], e) && pointSimilar(b[n], oa[(n-s)%n], e)
+			if s == 0 {
+				match = pointSimilar(a[n], b[n], e)
+			} else {
+				match = pointSimilar(a[n], ob[s], e) && pointSimilar(b[n], oa[(n-s)%n], e)
+			}
 		}
 		if match {
 			return true
